@@ -23,7 +23,10 @@ import (
 // Every trace forks from the base block, stakes a few delegates on two or three providers with real lock
 // transactions, and then runs kill_* / shutdown_* transactions by the contract owner, the provider's
 // delegate wallet, the provider itself and a stranger (first, repeated and late attempts), interleaved with
-// reward payments to the addressed and to other providers.  Every step is followed by a `Kill` event with
+// reward payments to the addressed and to other providers, and with real unlock transactions of the
+// delegates (a delegate leaves a live or a dead provider; every third trace is an "exodus": the target is
+// killed / shut down, ALL its delegates unlock their slashed stakes so that the dead pool has no delegate
+// pool left, and rewards are paid afterwards).  Every step is followed by a `Kill` event with
 // ALL stake-pool nodes of the state (key set and contents, found by decoding every value node of the MPT)
 // and the provider records of all providers, before and after.
 
@@ -34,6 +37,8 @@ type killer struct {
 	r  *rand.Rand
 	// per trace: providers shut down successfully by somebody whose id is not the provider's
 	foreignShut map[string]bool
+	// per trace: the clients that locked a stake on a provider (by provider name, in lock order)
+	staked map[string][]*world.Key
 }
 
 type fullProj struct {
@@ -87,9 +92,50 @@ func (e *env) full(s util.MerklePatriciaTrieI) fullProj {
 	return out
 }
 
+// extendBase puts a second base block for C23 on top of the shared one: the contract owner lowers the
+// storage contract's min_stake_per_delegate to 0 with the real update_settings + commit_settings_changes
+// transactions, and two more providers (blobber b3, validator v3) register afterwards with the contract's
+// own registration transactions.  Their stake pools carry Settings.MinStake = 0 (b1 b2 v1 v2 keep the
+// configured 100): such a pool is rewarded even when no delegate pool is left -- everything goes to the
+// provider's own reward -- so "staked less than the minimum" no longer stands in for "dead".
+func (e *env) extendBase() {
+	w := e.w
+	w.BeginBlock(e.base)
+	e.must("update_settings min_stake_per_delegate", w.SC(w.Owner, "storagesc", "update_settings",
+		map[string]interface{}{"fields": map[string]string{"min_stake_per_delegate": "0"}}, 0, 0))
+	e.must("commit_settings_changes", w.SC(w.Owner, "storagesc", "commit_settings_changes", map[string]interface{}{"round": w.Cur.Round}, 0, 0))
+	x1 := w.ByName["x1"]
+	mk := func(name string, tp spenum.Provider, charge float64) {
+		p := &prov{Name: name, Key: w.NewKey(name), Type: tp, SC: "storagesc", Wallet: w.NewKey(name + "w"), Charge: charge, MaxDel: 2}
+		for _, k := range []*world.Key{p.Key, p.Wallet} {
+			e.must("fund "+name, w.Do(world.TxnSpec{From: x1, To: k.ID, Type: transaction.TxnTypeSend, Value: 10000}))
+		}
+		if tp == spenum.Blobber {
+			e.must("add_blobber "+name, w.SC(p.Key, "storagesc", "add_blobber", map[string]interface{}{
+				"id": p.Key.ID, "url": "https://" + name + ".verif:5050", "capacity": int64(100) << 30,
+				"terms":               map[string]interface{}{"read_price": 0, "write_price": 1e7},
+				"stake_pool_settings": spSettings(p)}, 0, 0))
+		} else {
+			e.must("add_validator "+name, w.SC(p.Key, "storagesc", "add_validator", map[string]interface{}{
+				"id": p.Key.ID, "url": "https://" + name + ".verif:5061", "stake_pool_settings": spSettings(p)}, 0, 0))
+		}
+		e.provs = append(e.provs, p)
+		e.byName[name] = p
+	}
+	mk("b3", spenum.Blobber, 0.25)
+	mk("v3", spenum.Validator, 0)
+	e.base = w.EndBlock()
+	for _, n := range e.stakeNodes(w.CurState) {
+		if (n.Key == "blobber:b3" || n.Key == "validator:v3") && n.SP.Settings.MinStake != 0 {
+			rec.Fatal("base block: %s registered with min stake %d, expected 0", n.Key, n.SP.Settings.MinStake)
+		}
+	}
+}
+
 func runC23(a common.Args) {
 	e := newEnv(nil)
 	defer e.w.Close()
+	e.extendBase()
 	rc := rec.New(a.Out)
 	defer rc.Close()
 	g := &killer{w: e.w, e: e, rc: rc}
@@ -121,6 +167,8 @@ func (g *killer) killable() []*prov {
 func (g *killer) history(a common.Args, id int) {
 	w, e := g.w, g.e
 	g.foreignShut = map[string]bool{}
+	g.staked = map[string][]*world.Key{}
+	exodus := id%3 == 0
 	w.BeginBlock(e.base)
 	g.rc.TraceID = id - 1
 	g.rc.Reset(rec.M{"family": "stake", "prop": "C23", "id": id, "seed": a.Seed, "steps": a.Steps},
@@ -129,6 +177,9 @@ func (g *killer) history(a common.Args, id int) {
 	// the target (every provider type gets its turn; shutdown exists for blobbers and validators only) and
 	// one or two bystanders whose pools must not move
 	target := ps[(id+g.r.Intn(2)*3)%len(ps)]
+	if exodus && g.r.Intn(2) == 0 {
+		target = e.byName[[]string{"b3", "v3"}[g.r.Intn(2)]] // a pool that is rewarded without any delegate
+	}
 	focus := []*prov{target}
 	for _, i := range g.r.Perm(len(ps)) {
 		if ps[i] != target && len(focus) < 3 {
@@ -140,13 +191,16 @@ func (g *killer) history(a common.Args, id int) {
 	pre := e.full(w.CurState)
 	for _, p := range focus {
 		n := g.r.Intn(3)
-		if p != target && n == 0 {
+		if (p != target || exodus) && n == 0 {
 			n = 1
 		}
 		for i := 0; i < n && i < p.MaxDel; i++ {
 			v := []uint64{100, 101, 333, 1000, 1001, 7777, 99999}[g.r.Intn(7)]
-			w.DoRec(g.rc, world.TxnSpec{From: stakers[i], To: world.Contracts[p.SC], Type: transaction.TxnTypeSmartContract, Fn: fnLock[p.SC],
+			res := w.DoRec(g.rc, world.TxnSpec{From: stakers[i], To: world.Contracts[p.SC], Type: transaction.TxnTypeSmartContract, Fn: fnLock[p.SC],
 				Input: map[string]interface{}{"provider_id": p.Key.ID, "provider_type": int(p.Type)}, Value: v}, rec.M{"src": "stake"})
+			if res.Class == "ok" {
+				g.staked[p.Name] = append(g.staked[p.Name], stakers[i])
+			}
 		}
 		if g.r.Intn(3) == 0 {
 			g.pay(p, uint64(10+g.r.Intn(500)))
@@ -154,6 +208,11 @@ func (g *killer) history(a common.Args, id int) {
 	}
 	g.emit("setup", "", target, w.Owner, "owner", "ok", 0, pre, e.full(w.CurState))
 
+	if exodus {
+		g.exodus(target, focus)
+		w.EndBlock()
+		return
+	}
 	for i := 0; i < a.Steps; i++ {
 		if g.r.Intn(8) == 0 {
 			w.EndBlock()
@@ -179,6 +238,13 @@ func (g *killer) history(a common.Args, id int) {
 			who = q.Wallet
 		}
 		switch x := g.r.Intn(100); {
+		case x < 8:
+			// a delegate (or somebody who is none) takes his stake out of a live or a dead provider
+			d := stakers[g.r.Intn(len(stakers))]
+			if ds := g.staked[p.Name]; len(ds) > 0 && g.r.Intn(4) != 0 {
+				d = ds[g.r.Intn(len(ds))]
+			}
+			g.unlock(p, d)
 		case x < 35:
 			g.txn("kill", killFn[p.Type], p, who, role)
 		case x < 70:
@@ -192,6 +258,67 @@ func (g *killer) history(a common.Args, id int) {
 		}
 	}
 	w.EndBlock()
+}
+
+// exodus: the target is disabled by an authorised caller (sometimes after a failed attempt of somebody
+// else), then EVERY delegate unlocks what is left of his stake -- the dead stake pool stays in the state
+// without any delegate pool -- and rewards are paid to it (and to a bystander) afterwards, in the same and in
+// a later block; late kill / shutdown attempts follow.
+func (g *killer) exodus(target *prov, focus []*prov) {
+	w := g.w
+	if g.r.Intn(3) == 0 {
+		g.reward(target, []uint64{3, 10, 99}[g.r.Intn(3)])
+	}
+	if g.r.Intn(3) == 0 {
+		g.txn("kill", killFn[target.Type], target, w.ByName["x1"], "stranger")
+	}
+	fn, who, role, op := killFn[target.Type], w.Owner, "owner", "kill"
+	if sf, ok := shutFn[target.Type]; ok && g.r.Intn(2) == 0 {
+		fn, op = sf, "shutdown"
+		if g.r.Intn(2) == 0 {
+			who, role = target.Wallet, "wallet"
+		}
+	}
+	g.txn(op, fn, target, who, role)
+	if g.r.Intn(2) == 0 {
+		g.reward(target, []uint64{1, 10, 1000}[g.r.Intn(3)]) // dead, delegates still there
+	}
+	ds := g.staked[target.Name]
+	for _, i := range g.r.Perm(len(ds)) {
+		if g.r.Intn(4) == 0 {
+			w.EndBlock()
+			w.BeginBlock()
+		}
+		g.unlock(target, ds[i])
+	}
+	for i := 0; i < 3; i++ {
+		if g.r.Intn(3) == 0 {
+			w.EndBlock()
+			w.BeginBlock()
+		}
+		p := target
+		if i == 1 && len(focus) > 1 {
+			p = focus[1] // a live bystander is still paid
+		}
+		g.reward(p, []uint64{1, 3, 10, 99, 1000}[g.r.Intn(5)])
+	}
+	if g.r.Intn(2) == 0 {
+		g.txn("kill", killFn[target.Type], target, w.Owner, "owner")
+	}
+	if sf, ok := shutFn[target.Type]; ok && g.r.Intn(2) == 0 {
+		g.txn("shutdown", sf, target, target.Wallet, "wallet")
+	}
+}
+
+// unlock = one real unlock transaction of client d on the stake pool of p
+func (g *killer) unlock(p *prov, d *world.Key) {
+	w, e := g.w, g.e
+	pre := e.full(w.CurState)
+	fn := fnUnlock[p.SC]
+	res := w.DoRec(g.rc, world.TxnSpec{From: d, To: world.Contracts[p.SC], Type: transaction.TxnTypeSmartContract, Fn: fn,
+		Input: map[string]interface{}{"provider_id": p.Key.ID, "provider_type": int(p.Type)}}, rec.M{"src": "stake"})
+	post := e.full(w.CurState)
+	g.emit("unlock", fn, p, d, "delegate", res.Class, 0, pre, post)
 }
 
 func indexOf(ps []*prov, p *prov) int {
@@ -286,6 +413,10 @@ func (g *killer) emit(op, fn string, p *prov, who *world.Key, role, class string
 	outcome := class
 	if op == "kill" || op == "shutdown" {
 		outcome = fmt.Sprintf("%s/%s/dead=%v", role, class, recPre != 1)
+	}
+	if op == "unlock" || op == "reward" {
+		// left = delegate pools of the addressed provider's own stake pool after the step
+		outcome = fmt.Sprintf("%s/dead=%v/left=%d", class, recPre != 1, len(post.ownKeys[nk]))
 	}
 	g.rc.Emit(m, op+"/"+p.Type.String()+"/"+outcome, class == "ok" && op != "setup")
 }
